@@ -84,6 +84,29 @@ theorem C13_static_configured_accepted (c₀ : List Backend) (cs : List (List Ba
   rw [List.find?_isSome]
   exact ⟨b, List.mem_filter.mpr ⟨hb, by simp [hhost]⟩, hm⟩
 
+open SigModel.Generated.Backends in
+/-- The model's `reload` / `etcdPut` / `etcdDelete` are total functions, which is faithful only if the
+Go code on those paths has no operation that can panic.  This is the complete list of index, slice
+and type-assertion expressions and `panic` calls in `Reload`, `RemoveBackendsForHost`, `UpsertHost`,
+`getConfiguredHosts`, `getConfiguredBackendIDs`, `EtcdKeyUpdated`, `EtcdKeyDeleted`,
+`removeBackendLocked`, regenerated from the source.  Audit: all but two are reads/writes of maps
+created with `make` in the constructors (a map read never panics); `u[len(u)-1]` is reached only
+after `if u == "" { continue }`; `entries[idx]` uses the index of the enclosing `range entries`.
+(The pinned tree had `s.backends[host][existingIndex]` and `s.backends[host][:existingIndex]` here —
+the panic of `C13_legacy_upsert_panics`.)  A new entry in this list fails the `decide` and has to be
+audited. -/
+theorem C13_reload_path_audit :
+    reloadPathPartialOps =
+      ["Reload: configuredHosts[hostname]", "RemoveBackendsForHost: s.backends[host]",
+       "UpsertHost: s.backends[host]", "UpsertHost: s.backends[host]",
+       "getConfiguredHosts: u[len(u)-1]", "getConfiguredHosts: hosts[parsed.Host]",
+       "getConfiguredHosts: hosts[parsed.Host]", "getConfiguredBackendIDs: seen[id]",
+       "getConfiguredBackendIDs: seen[id]", "EtcdKeyUpdated: s.keyInfos[key]",
+       "EtcdKeyUpdated: s.keyInfos[key]", "EtcdKeyUpdated: s.backends[host]",
+       "EtcdKeyUpdated: s.backends[host]", "EtcdKeyUpdated: entries[idx]",
+       "EtcdKeyUpdated: s.backends[host]", "EtcdKeyDeleted: s.keyInfos[key]",
+       "removeBackendLocked: s.backends[host]", "removeBackendLocked: s.backends[host]"] := by decide
+
 /-! ### why `UpsertHost` was replaced: the pinned tree's in-place version (`Legacy`) -/
 
 namespace Witness
@@ -191,12 +214,13 @@ theorem C13_etcd_moved_not_accepted (ops : List EtcdOp) (key : String) (i : Info
 open SigModel.Generated.Backends in
 /-- The facts read from the source that the lookup model is defined over: `https` always, `http`
 only for backends configured with an http url, nothing else; first matching entry wins; prefix
-test on the url with a trailing slash; `Reload` acts in "backends" mode only; and no lock user
+test on the url with a trailing slash; urls with "." / ".." segments are refused before the
+storage is asked; `Reload` acts in "backends" mode only; and no lock user
 outside the modelled entry points. -/
 theorem C13_facts :
     schemeHttps = "true" ∧ schemeHttp = "allowHttp" ∧ schemeOther = "false" ∧
     lookupFirstMatchWins = true ∧ lookupUsesHasPrefix = true ∧ lookupAppendsSlash = true ∧
-    reloadOnlyInBackendsMode = true ∧ unreachedLockUsers = [] := by decide
+    lookupRefusesDotSegments = true ∧ reloadOnlyInBackendsMode = true ∧ unreachedLockUsers = [] := by decide
 
 /-- The extracted scheme rule is the statement's: https always, http only where configured. -/
 theorem C13_scheme_rule (b : Backend) (scheme : String) :
@@ -238,24 +262,42 @@ theorem getBackend_fresh_none {bs : List Backend} {scheme host url : String}
   have := List.find?_eq_none.mp h b (by simp [forHost, hb, hhost])
   simpa using this
 
+/-- `lookup` (with the dot-segment rule) inherits the equality with a fresh start. -/
+theorem C13_lookup_reload_eq_fresh (c₀ : List Backend) (cs : List (List Backend)) (p : Probe) :
+    lookup (runReloads c₀ cs) p = lookup (fresh (finalCfg c₀ cs)) p := by
+  unfold lookup; rw [C13_reload_eq_fresh]
+
+theorem lookup_dots (t : Table) (p : Probe) (h : p.dots = true) : lookup t p = none := by
+  simp [lookup, h, Generated.Backends.lookupRefusesDotSegments]
+
+theorem lookup_nodots (t : Table) (p : Probe) (h : p.dots = false) :
+    lookup t p = getBackend t p.scheme p.host p.url := by
+  simp [lookup, h]
+
 /-- For every chain of configurations and every lookup the judge's verdict on the model's answers is
 `ok`: the model of the code refines the statement as the judge reads it. -/
 theorem C13_static_meets_spec (c₀ : List Backend) (cs : List (List Backend)) (p : Probe) :
     judgeProbe (finalCfg c₀ cs) p
-      ((getBackend (runReloads c₀ cs) p.scheme p.host p.url).map ansOf)
-      ((getBackend (fresh (finalCfg c₀ cs)) p.scheme p.host p.url).map ansOf) = "ok" := by
-  rw [C13_reload_eq_fresh]
+      ((lookup (runReloads c₀ cs) p).map ansOf)
+      ((lookup (fresh (finalCfg c₀ cs)) p).map ansOf) = "ok" := by
+  rw [C13_lookup_reload_eq_fresh]
+  cases hd : p.dots with
+  | true => simp [lookup_dots _ p hd, judgeProbe, specAccepts, hd]
+  | false =>
+  rw [lookup_nodots _ p hd]
   cases h : getBackend (fresh (finalCfg c₀ cs)) p.scheme p.host p.url with
   | some b =>
     obtain ⟨hb, hhost, hm⟩ := getBackend_fresh_some h
     have hany : (finalCfg c₀ cs).any (fun b' => ansOf b' == ansOf b && specMatches p b') = true := by
       rw [List.any_eq_true]
       exact ⟨b, hb, by rw [specMatches_iff]; simp [hhost, hm]⟩
-    simp [judgeProbe, hany]
+    simp [judgeProbe, hany, hd]
   | none =>
     have hnone := getBackend_fresh_none h
     have hacc : specAccepts (finalCfg c₀ cs) p = false := by
       unfold specAccepts
+      rw [hd]
+      simp only [Bool.not_false, Bool.true_and]
       rw [List.any_eq_false]
       intro b hb
       rw [specMatches_iff]
@@ -268,8 +310,12 @@ theorem C13_static_meets_spec (c₀ : List Backend) (cs : List (List Backend)) (
 theorem C13_etcd_meets_spec (ops : List EtcdOp) (kvs : Infos) (hn : KeysNodup kvs)
     (hkv : ∀ k, iget kvs k = iget (kvAfter ops) k) (p : Probe) :
     judgeProbe ((kvAfter ops).map (fun e => backendOf e.1 e.2)) p
-      ((getBackend (runEtcd ops).table p.scheme p.host p.url).map ansOf)
-      ((getBackend (etcdFresh kvs).table p.scheme p.host p.url).map ansOf) = "ok" := by
+      ((lookup (runEtcd ops).table p).map ansOf)
+      ((lookup (etcdFresh kvs).table p).map ansOf) = "ok" := by
+  cases hd : p.dots with
+  | true => simp [lookup_dots _ p hd, judgeProbe, specAccepts, hd]
+  | false =>
+  rw [lookup_nodots _ p hd, lookup_nodots _ p hd]
   rw [← C13_etcd_eq_fresh ops kvs hn hkv]
   cases h : getBackend (runEtcd ops).table p.scheme p.host p.url with
   | some b =>
@@ -281,10 +327,12 @@ theorem C13_etcd_meets_spec (ops : List EtcdOp) (kvs : Infos) (hn : KeysNodup kv
       rw [specMatches_iff]
       have : b.host = p.host := by rw [hb]; exact hhost
       simp [this, hm]
-    simp [judgeProbe, hany]
+    simp [judgeProbe, hany, hd]
   | none =>
     have hacc : specAccepts ((kvAfter ops).map (fun e => backendOf e.1 e.2)) p = false := by
       unfold specAccepts
+      rw [hd]
+      simp only [Bool.not_false, Bool.true_and]
       rw [List.any_eq_false]
       intro b hb
       obtain ⟨⟨k, i⟩, hmem, rfl⟩ := List.mem_map.mp hb
